@@ -624,7 +624,7 @@ func runE2EPhase(t *testing.T, run *ev.Run) {
 	t0 := time.Now()
 	defer func() { run.Set("e2e_phase_wall_s", time.Since(t0).Seconds()) }()
 	r := run.Rand("e2e")
-	n := run.N(70, 1500)
+	n := run.N(56, 1500)
 	cases := make([]e2eCase, n)
 	for i := range cases {
 		cases[i] = genE2E(r, i)
